@@ -513,7 +513,13 @@ func C10_Run(job string) {
 		errs := z.Struct(z.Schema{"a": z.Int().GT(100).LT(50, z.Message("custom")), "l": z.Slice(z.Int().GT(100)).Min(5)}).Parse(map[string]any{"a": x, "l": []any{y, "zz"}}, &d)
 		san := z.Issues.SanitizeMap(errs)
 		v.Assert(len(san) == len(errs), "C10:sanitize-keys")
-		for k, l := range errs {
+		seen := 0
+		for _, k := range []string{"$first", "a", "l", "l[0]", "l[1]"} { // fixed order: the trace is compared with the native one
+			l, present := errs[k]
+			if !present {
+				continue
+			}
+			seen++
 			ms, ok := san[k]
 			v.Assert(ok && len(ms) == len(l), "C10:sanitize-keys")
 			for i := range l {
@@ -525,6 +531,7 @@ func C10_Run(job string) {
 				v.Assert(sl[i] == l[i].Message, "C10:sanitize-list")
 			}
 		}
+		v.Assert(seen == len(errs), "C10:sanitize-keys")
 		v.Cover("some-issues")
 	case "first-and-unique":
 		x, y, w := v.Int("x"), v.Int("y"), v.Int("w")
